@@ -4,6 +4,8 @@ Same allocator model as C05/C09.
 -/
 import LaytheVerif.Props.C05
 import LaytheVerif.Lemmas.AllocGen
+import LaytheVerif.Lemmas.AllocRelease
+import LaytheVerif.Lemmas.DropGen
 namespace LaytheVerif.C20
 open LaytheVerif.Alloc LaytheVerif.C05
 
@@ -78,5 +80,94 @@ theorem C20_witness_nursery_accounting :
     let a : A := { objs := [{ size := 21, edges := [] }, { size := 64, edges := [] }], nursery := [0, 1], bytes := 85 }
     let pinnedRemaining := sumSizes a a.nursery          -- retained and freed alike
     (a.collect [0] (some false)).bytes = 21 ∧ pinnedRemaining = 85 := by decide
+
+/-! ### garbage is reclaimed: every block the allocator lets go of is handed back -/
+
+/-- In every state a history can reach, every block is in the owner lists at most once (so a sweep
+can drop it at most once: no double release). -/
+theorem run_ownedOk (m : M) (ops : List Op) (h : OwnedOk m.a) : OwnedOk (run m ops).a := by
+  induction ops generalizing m with
+  | nil => exact h
+  | cons op rest ih =>
+    apply ih
+    cases op with
+    | alloc o hit => exact ownedOk_alloc m.a o m.roots hit h
+    | str s size hit => exact ownedOk_manageStr m.a s size m.roots hit h
+    | setEdges x es => exact ownedOk_setEdges m.a x es h
+    | setRoots R' => exact h
+    | setTemp t => exact h
+    | collect force => exact ownedOk_collect m.a m.roots force h
+
+/-- **C20_collect_releases_exactly_the_dropped.** For every allocator state, root set and collection
+mode: if the `Drop` arm of every owned block reaches its `dealloc` (`rel`), then the blocks handed
+back to the system allocator are exactly the handles the sweeps dropped, and what was owned before
+is — as a multiset — what is owned afterwards plus what was handed back.  Nothing leaves the owner
+lists without being released. -/
+theorem C20_collect_releases_exactly_the_dropped (a : A) (R : List Nat) (force : Option Bool) (rel : Nat → Bool)
+    (hrel : ∀ x ∈ a.owned, rel x = true) :
+    (a.collectLog R force rel).released = (a.collectLog R force rel).dropped ∧
+    List.Perm a.owned ((a.collect R force).owned ++ (a.collectLog R force rel).released) := by
+  have hd : (a.collectLog R force rel).released = (a.collectLog R force rel).dropped := by
+    rw [collectLog_released]
+    exact filter_all (fun x hx => hrel x (dropped_subset_owned a R force rel x hx))
+  exact ⟨hd, hd ▸ collectLog_perm a R force rel⟩
+
+/-- **C20_released_iff.** In every state reached by any history, for every collection: a block is
+handed back iff it was owned before and is not owned afterwards; each such block is handed back
+exactly once; and the counts add up. -/
+theorem C20_released_iff (ops : List Op) (force : Option Bool) (rel : Nat → Bool)
+    (hrel : ∀ x ∈ (run {} ops).a.owned, rel x = true) :
+    let m := run {} ops
+    let s := m.a.collectLog m.roots force rel
+    (∀ x, x ∈ s.released ↔ (x ∈ m.a.owned ∧ x ∉ (m.a.collect m.roots force).owned)) ∧
+    s.released.Nodup ∧
+    s.released.length + (m.a.collect m.roots force).owned.length = m.a.owned.length := by
+  intro m s
+  have hok : OwnedOk m.a := run_ownedOk {} ops ownedOk_init
+  obtain ⟨hd, hp⟩ := C20_collect_releases_exactly_the_dropped m.a m.roots force rel hrel
+  have hn : ((m.a.collect m.roots force).owned ++ s.released).Nodup := hp.nodup_iff.mp hok.1
+  obtain ⟨hn1, hn2, hdis⟩ := List.nodup_append.mp hn
+  refine ⟨fun x => ⟨fun hx => ⟨hp.symm.subset (List.mem_append.mpr (Or.inr hx)), fun ho => hdis x ho x hx rfl⟩, fun ⟨ho, hno⟩ => ?_⟩, hn2, ?_⟩
+  · have := hp.subset ho
+    rcases List.mem_append.mp this with h | h
+    · exact absurd h hno
+    · exact h
+  · have := hp.length_eq
+    rw [List.length_append] at this
+    show (m.a.collectLog m.roots force rel).released.length + _ = _
+    omega
+
+/-- Teardown: dropping the allocator hands back every block it still owns. -/
+theorem C20_teardown_releases_all (a : A) (rel : Nat → Bool) (hrel : ∀ x ∈ a.owned, rel x = true) :
+    a.teardownLog rel = a.owned := filter_all hrel
+
+/-- **C20_released_exact_gen.** The same with `rel` read off the Rust text: `kindOf x` is the
+`ObjectKind` of block `x` (`none` for the boxed `heap` entries).  Uses [G] `relOfKind_gen`: every arm of
+`impl Drop for ObjectHandle` reaches its `dealloc` unconditionally. -/
+theorem C20_released_exact_gen (a : A) (R : List Nat) (force : Option Bool) (kindOf : Nat → Option String)
+    (hk : ∀ x s, kindOf x = some s → s ∈ Gen.DropArms.kinds) :
+    let rel := fun x => DropGen.relOfKind Gen.DropArms.arms (kindOf x)
+    (a.collectLog R force rel).released = (a.collectLog R force rel).dropped ∧
+    List.Perm a.owned ((a.collect R force).owned ++ (a.collectLog R force rel).released) ∧
+    a.teardownLog rel = a.owned := by
+  intro rel
+  have hrel : ∀ x ∈ a.owned, rel x = true := fun x _ => DropGen.relOfKind_all (kindOf x) (hk x)
+  exact ⟨(C20_collect_releases_exactly_the_dropped a R force rel hrel).1,
+         (C20_collect_releases_exactly_the_dropped a R force rel hrel).2,
+         C20_teardown_releases_all a rel hrel⟩
+
+/-- Non-vacuity: a nursery collection over three blocks, one of them live: two are handed back. -/
+example :
+    let a : A := { objs := [{ size := 24, edges := [] }, { size := 24, edges := [] }, { size := 40, edges := [] }], nursery := [0, 1, 2], bytes := 88 }
+    (a.collectLog [2] (some false) (fun _ => true)).released = [0, 1] ∧ (a.collect [2] (some false)).owned = [2] := by decide
+
+/-- **C20_witness_guarded_dealloc.** The hypothesis on `rel` is what the property rests on: if the arm
+for one kind of block does not reach its `dealloc` (the capacity-0 list of a seeded change), a dead block
+of that kind leaves the owner lists and is never handed back — while `bytes` stays exact. -/
+theorem C20_witness_guarded_dealloc :
+    let a : A := { objs := [{ size := 24, edges := [] }, { size := 56, edges := [] }], nursery := [0, 1], bytes := 80 }
+    let rel := fun x => x != 0            -- block 0: a list of capacity 0 under `if cap > 0 { .. dealloc .. }`
+    let s := a.collectLog [] (some true) rel
+    s.a.owned = [] ∧ s.dropped = [0, 1] ∧ s.released = [1] ∧ s.a.bytes = 0 := by decide
 
 end LaytheVerif.C20
